@@ -51,10 +51,33 @@ def seeded():
     return "\n".join(out)
 
 
+def props():
+    m = json.load(open(os.path.join(ROOT, "MANIFEST.json")))
+    out = ["| property | level | deciding method | what the last quick run covered |", "|---|---|---|---|"]
+    for c in m["checks"]:
+        pid = c["property_id"]
+        cov = ""
+        ef = os.path.join(ROOT, "evidence", pid + ".json")
+        if os.path.exists(ef):
+            e = json.load(open(ef))
+            cv = e.get("coverage", {})
+            bits = []
+            for k, lab in (("evaluations", "evaluations on the real code"), ("traces_validated_against_impl", "traces/observations validated by TLC"),
+                           ("states", "TLC states"), ("distinct_nontrivial", "distinct non-trivial")):
+                if k in cv:
+                    bits.append("%s %s" % (cv[k], lab))
+            mdl = cv.get("model") or cv.get("crash_model")
+            if mdl:
+                bits.append("model paths replayed into the real engine: %s (drift %s)" % (mdl.get("paths_replayed_into_real_engine"), mdl.get("paths_with_drift")))
+            cov = "; ".join(bits) + " (%s tier, %.0f s)" % (e.get("tier"), e.get("wall_s", 0))
+        out.append("| %s | %s | %s | %s |" % (pid, c.get("level_claimed", {}).get("category", ""), short(c.get("technique", ""), 240), cov))
+    return "\n".join(out)
+
+
 def main():
     p = os.path.join(ROOT, "DESIGN.md")
     s = open(p).read()
-    for name, fn in (("FINDINGS", findings), ("SEEDED", seeded)):
+    for name, fn in (("FINDINGS", findings), ("SEEDED", seeded), ("PROPS", props)):
         b, e = "<!-- %s-BEGIN -->" % name, "<!-- %s-END -->" % name
         if b in s and e in s:
             s = s[:s.index(b) + len(b)] + "\n" + fn() + "\n" + s[s.index(e):]
